@@ -2444,7 +2444,8 @@ pub fn flat_bm25_search_stream(
                     token_docs.insert(token.clone(), token_nq);
                 }
                 MemBM25Scorer::new(
-                    index_bm25_scorer.avg_doc_length() as u64 * index_bm25_scorer.num_docs() as u64,
+                    (index_bm25_scorer.avg_doc_length() * index_bm25_scorer.num_docs() as f32)
+                        .round() as u64,
                     index_bm25_scorer.num_docs(),
                     token_docs,
                 )
